@@ -22,6 +22,7 @@ type FuncReport struct {
 	Err           string
 	Trusted       bool
 	Unbound       bool
+	External      bool
 	UsedContracts []string
 	UsedTrusted   []string
 	BodyHash      string
@@ -69,12 +70,22 @@ func enumCases(fresh []*FreshVar) []splitCase {
 }
 
 // VerifyFunc generates all obligations for one contracted function.
+// coverExits: dev aid (govc verify -cover) that adds a satisfiability query per
+// normal exit path, so that a contract which silently kills a path is noticed.
+var coverExits bool
+
 func (e *Engine) VerifyFunc(q string, c *Contract, caseFilter func(label string) bool) ([]*Obligation, *FuncReport) {
 	rep := &FuncReport{Func: q, Mode: c.Mode, Abstracted: map[string]int{}, File: e.fileOf[q]}
 	if c.Lemma {
 		return e.verifyLemma(q, c, rep)
 	}
 	fd := e.funcs[q]
+	if fd == nil && c.Trusted && e.isExternalName(q) {
+		// trusted contract of a library function (os, encoding/gob, ...)
+		rep.Trusted = true
+		rep.External = true
+		return nil, rep
+	}
 	if fd == nil {
 		rep.Unbound = true
 		rep.Err = "contract-unbound: no function " + q
@@ -326,6 +337,12 @@ func (x *Exec) runFunc(fd *ast.FuncDecl, c *Contract, sc splitCase, first bool) 
 			return
 		}
 	}
+	for _, aa := range c.AssertBefore {
+		if x.anchorHits["assert:"+aa.Anchor] == 0 {
+			x.fail("assertbefore anchor %q matches no statement of %s", aa.Anchor, x.qual)
+			return
+		}
+	}
 	for _, ga := range c.GhostAfter {
 		if x.anchorHits[ga.Anchor] == 0 {
 			x.fail("ghostafter anchor %q matches no statement of %s", ga.Anchor, x.qual)
@@ -342,9 +359,20 @@ func (x *Exec) runFunc(fd *ast.FuncDecl, c *Contract, sc splitCase, first bool) 
 		exits = []*State{x.mergeAll(exits)}
 	}
 	endPos := fd.Body.Rbrace
-	for _, exit := range exits {
+	for ei, exit := range exits {
 		if exit == nil || x.infeasible(exit) {
+			if coverExits {
+				fmt.Fprintf(os.Stderr, "DEAD-EXIT %s exit#%d (syntactically infeasible)\n", x.qual, ei)
+			}
 			continue
+		}
+		if coverExits {
+			cv := &Obligation{Name: fmt.Sprintf("%s.cover.exit#%d", x.qual, ei), Base: x.qual + ".cover.exit", Kind: "cover", Func: x.qual, Clause: "cover.exit", Goal: x.b.False(), Case: x.caseLabel, bank: x.b, Cover: true}
+			if x.caseLabel != "" {
+				cv.Name += "[" + x.caseLabel + "]"
+			}
+			cv.Hyps = append([]*Term{}, exit.pc...)
+			x.obls = append(x.obls, cv)
 		}
 		for i, n := range fr.resNames {
 			exit.names[n] = exit.env[fr.results[i]]
@@ -945,6 +973,13 @@ func (x *Exec) checkFrame(exit, pre *State, c *Contract, pos token.Pos) {
 		eq := x.b.Eq(a, o)
 		if !eq.IsTrue() {
 			changed = append(changed, k)
+			if a.Sort.Kind == SArray && a.Sort.Idx == IntSort {
+				// the frame speaks about objects that existed on entry: cells of
+				// objects allocated by this function (refs >= alloc on entry,
+				// e.g. address-taken locals) are not visible to the caller
+				r := x.b.Fresh("frame.ref", IntSort)
+				eq = x.b.Implies(x.b.And(x.b.Le(x.b.Int(0), r, true), x.b.Lt(r, pre.alloc, true)), x.b.Eq(x.b.Select(a, r), x.b.Select(o, r)))
+			}
 		}
 		cs = append(cs, eq)
 	}
@@ -960,4 +995,18 @@ func (x *Exec) checkFrame(exit, pre *State, c *Contract, pos token.Pos) {
 		}
 	}
 	x.oblige(exit, "frame", "frame", x.b.And(cs...), pos, nil)
+}
+
+// isExternalName: the qualified name refers to a function outside the package
+// under verification (its first segment is neither a package-level type nor a
+// package-level function of the repository).
+func (e *Engine) isExternalName(q string) bool {
+	first := q
+	if i := strings.IndexAny(q, "./"); i >= 0 {
+		first = q[:i]
+	}
+	if strings.Contains(q, "/") {
+		return true
+	}
+	return e.pkg.Types.Scope().Lookup(first) == nil
 }
